@@ -25,6 +25,8 @@ structure Scenario where
   preamble : List Bytes := []     -- plain http: the request itself is the first thing forwarded
   resetApp : Bool := false        -- the application resets once its bytes have arrived
   resetTarget : Bool := false     -- the target resets once everything has arrived (it never answers)
+  resetAnswer : Bool := false     -- the target answers and is gone at once, part of the upload still unread: its kernel resets
+  hold : Bool := false            -- the target closes first; the application sees the end and stays, idle
 deriving Repr
 
 structure Chain where
@@ -63,11 +65,15 @@ def react (sc : Scenario) (c : Chain) : Chain :=
         { c with answered := true, appClosed := true, client := { c.client with up := { c.client.up with script := c.client.up.script ++ [Src.fail] } } }
       else if sc.resetTarget then
         { c with answered := true, server := { c.server with down := { c.server.down with script := c.server.down.script ++ [Src.fail] } } }
+      else if sc.resetAnswer then
+        -- the answer, then the reset: the server's read of the target fails *behind* the answer
+        { c with answered := true,
+                 server := { c.server with down := { c.server.down with script := c.server.down.script ++ sc.down.map Src.item ++ [Src.fail] } } }
       else
       { c with answered := true,
                server := { c.server with down := { c.server.down with script := c.server.down.script ++ sc.down.map Src.item ++ (if sc.targetClosesFirst then [Src.eof] else []) } } }
     else c
-  let c := if !c.appClosed && !sc.appEarly && !sc.targetClosesFirst && !sc.resetTarget && sc.cutAfter.isNone && c.answered && size c.client.down.delivered ≥ size sc.down then
+  let c := if !c.appClosed && !sc.appEarly && !sc.targetClosesFirst && !sc.resetTarget && !sc.resetAnswer && sc.cutAfter.isNone && c.answered && size c.client.down.delivered ≥ size sc.down then
       { c with appClosed := true, client := { c.client with up := { c.client.up with script := c.client.up.script ++ [Src.eof] } } }
     else c
   match sc.cutAfter with
@@ -107,6 +113,7 @@ structure Obs where
   downOk : Bool
   eof : Bool
   targetEof : Bool
+  released : Bool      -- both hops are torn down: nothing of the flow is held any more
 deriving Repr
 
 def simulate (sc : Scenario) : Obs :=
@@ -121,7 +128,8 @@ def simulate (sc : Scenario) : Obs :=
     upGot := size upGot, upWant := size sc.up, upOk := upGot.flatten == wantUp.flatten
     downGot := size c.client.down.delivered, downWant := size sc.down, downOk := c.client.down.delivered.flatten == sc.down.flatten
     eof := c.client.down.sinkClosed || c.client.tornDown
-    targetEof := dialed && (c.server.up.sinkClosed || c.server.tornDown) }
+    targetEof := dialed && (c.server.up.sinkClosed || c.server.tornDown)
+    released := c.client.tornDown && c.server.tornDown }
 
 def b2 (b : Bool) : String := if b then "1" else "0"
 
@@ -134,6 +142,9 @@ def Obs.text (sc : Scenario) (o : Obs) : String :=
     s!"dialed={b2 o.dialed} up={up} eof={b2 o.eof} target-eof={b2 o.targetEof} prompt={b2 (o.eof && o.targetEof)}"
   else if sc.resetApp then
     s!"dialed={b2 o.dialed} up={if o.upOk then "ok" else "diff"} end={b2 o.targetEof} prompt={b2 o.targetEof}"
+  else if sc.resetAnswer then
+    let down := if o.downOk then "ok" else s!"diff:{o.downGot}of{o.downWant}"
+    s!"dialed={b2 o.dialed} down={down} eof={b2 o.eof} prompt={b2 o.eof}"
   else if sc.resetTarget then
     s!"dialed={b2 o.dialed} up={if o.upOk then "ok" else "diff"} end={b2 o.eof} prompt={b2 o.eof}"
   else if sc.cutAfter.isSome then
@@ -143,6 +154,7 @@ def Obs.text (sc : Scenario) (o : Obs) : String :=
     let down := if o.downOk then "ok" else s!"diff:{o.downGot}of{o.downWant}"
     let te := if sc.targetClosesFirst then "-" else b2 o.targetEof
     let prompt := if sc.targetClosesFirst then o.dialed && o.eof else o.eof && o.targetEof
-    s!"dialed={b2 o.dialed} up={up} down={down} eof={b2 o.eof} target-eof={te} prompt={b2 prompt}"
+    let held := if sc.hold then (if o.released then " idle-held=0" else " idle-held=held") else ""
+    s!"dialed={b2 o.dialed} up={up} down={down} eof={b2 o.eof} target-eof={te} prompt={b2 prompt}{held}"
 
 end Octo.System
